@@ -546,7 +546,12 @@ func runC05(c *Ctx) {
 	}
 	item := 0
 	for _, cfg := range cfgs {
-		paths := enumPaths(crashAlphabet(cfg), depth)
+		d := depth
+		if cfg.Async != 0 && c.Tier == "quick" {
+			// with pending writes the interesting windows need one more call (write, flush, write, commit)
+			d = depth + 1
+		}
+		paths := enumPaths(crashAlphabet(cfg), d)
 		// plus the creation itself
 		paths = append([][]Op{{}}, paths...)
 		for _, p := range paths {
